@@ -15,7 +15,7 @@ EXCLUDE_FILES = {'conftest.py'}
 
 
 class Func:
-    __slots__ = ('module', 'qualname', 'name', 'node', 'cls')
+    __slots__ = ('module', 'qualname', 'name', 'node', 'cls', 'roles')
 
     def __init__(self, module, qualname, node, cls):
         self.module = module
@@ -23,6 +23,7 @@ class Func:
         self.name = node.name
         self.node = node
         self.cls = cls
+        self.roles = {}
 
     @property
     def rel(self):
@@ -159,6 +160,8 @@ class Repo:
             m = Module(rel, src)
             self.modules[rel] = m
             self.by_name[m.modname] = m
+        from .roles import apply_tables
+        apply_tables(self)
 
     # ---- lookups ------------------------------------------------------------------
     def module(self, rel):
